@@ -26,7 +26,14 @@
 (*          fnpos  : "first" | "last" | "mixed": functions and helper     *)
 (*                   declarations are written before / after / between    *)
 (*                   the test blocks of a file.  Nothing below depends on *)
-(*                   it: the position of a test block is irrelevant ]     *)
+(*                   it: the position of a test block is irrelevant,      *)
+(*          disk   : <<>> : the package is one file or an in-memory tree: *)
+(*                   every module of `mods` is part of it.  Otherwise the *)
+(*                   package is a DIRECTORY read from disk and `disk` is  *)
+(*                   the sequence of its entries in the order in which    *)
+(*                   they were created (see "packages read from disk"),   *)
+(*          brokenAt : disk packages: the module path of the file that    *)
+(*                   holds the unrelated error ]                          *)
 (*                                                                         *)
 (* The body of test i reports mark i, the body of function j mark 100+j.  *)
 (*                                                                         *)
@@ -65,6 +72,7 @@ Dot     == 46
 PKG     == <<112, 107, 103>>              \* "pkg"
 TESTPFX == <<116, 101, 115, 116, 35>>     \* "test#"
 MAIN    == <<109, 97, 105, 110>>          \* "main"
+MODSTEM == <<109, 111, 100>>              \* "mod"
 NoCall  == <<>>
 Root    == <<>>
 
@@ -83,11 +91,95 @@ LexLess(a, b) ==
      /\ (i = Len(a) + 1 \/ a[i] < b[i])
 
 -----------------------------------------------------------------------------
-(* the package *)
+(* packages read from disk                                                  *)
+(*                                                                          *)
+(* A directory entry is [dir, stem, ext, mod]:                              *)
+(*    dir  : the directory it lies in, a sequence of names relative to the  *)
+(*           package directory (<<>> = the package directory itself),       *)
+(*    stem, ext : "roto" : the file dir/stem.roto                           *)
+(*                "txt"  : the file dir/stem.txt (some file that is not a   *)
+(*                         Roto file, whatever its text)                    *)
+(*                "dir"  : the (possibly empty) directory dir/stem/         *)
+(*    mod  : FileMod: the module path under which tests / functions /       *)
+(*           errors written into that file are named in pkg.tests,          *)
+(*           pkg.funcs, pkg.brokenAt (meaningless for ext = "dir").         *)
+(* Directories exist as soon as an entry lies in them.                      *)
+(*                                                                          *)
+(* Which files make up the package (language reference "Modules", manual    *)
+(* "Modules & Imports", with the file name the code uses: mod.roto):        *)
+(*   - pkg.roto of the package directory is the root module pkg;            *)
+(*   - every other x.roto of a module directory D is the module <D>.x;      *)
+(*   - a sub-directory x of a module directory is the module <D>.x if it    *)
+(*     holds a mod.roto (that file is the module), and is then a module     *)
+(*     directory itself; otherwise the sub-directory and everything below   *)
+(*     it is not part of the package;                                       *)
+(*   - files that do not end in .roto are not part of the package.          *)
+(* The rules speak about the SET of entries: neither the order in which     *)
+(* the entries were created nor the order in which the file system lists    *)
+(* them, nor the depth or the kind (file / directory) of a module occurs    *)
+(* in them.                                                                 *)
+IsDiskPkg(p) == p.disk # <<>>
+DIdx(p)      == 1..Len(p.disk)
+
+FileMod(e) == IF e.dir = <<>> /\ e.stem = PKG THEN Root
+              ELSE IF e.dir # <<>> /\ e.stem = MODSTEM THEN e.dir
+              ELSE Append(e.dir, e.stem)
+
+HasEntry(p, d, s, x) ==
+  \E k \in DIdx(p) : p.disk[k].dir = d /\ p.disk[k].stem = s /\ p.disk[k].ext = x
+
+DirParent(d) == SubSeq(d, 1, Len(d) - 1)
+
+(* d is a directory whose Roto files are modules of the package *)
+RECURSIVE IsModDir(_, _)
+IsModDir(p, d) == \/ d = <<>>
+                  \/ (HasEntry(p, d, MODSTEM, "roto") /\ IsModDir(p, DirParent(d)))
+
+(* the entry is a source file of the package *)
+Loaded(p, e) == /\ e.ext = "roto"
+                /\ IsModDir(p, e.dir)
+                /\ (e.stem = PKG => e.dir = <<>>)
+                /\ (e.stem = MODSTEM => e.dir # <<>>)
+
+HasRoot(p) == IsDiskPkg(p) => HasEntry(p, <<>>, PKG, "roto")
+
+(* module paths that may hold items / the modules that are part of the package *)
+FileMods(p) == IF IsDiskPkg(p)
+                 THEN {p.disk[k].mod : k \in {k \in DIdx(p) : p.disk[k].ext # "dir"}}
+                 ELSE {p.mods[k] : k \in 1..Len(p.mods)}
+LiveModsOf(p) == IF IsDiskPkg(p)
+                   THEN IF HasRoot(p)
+                          THEN {p.disk[k].mod : k \in {k \in DIdx(p) : Loaded(p, p.disk[k])}}
+                          ELSE {}
+                   ELSE {p.mods[k] : k \in 1..Len(p.mods)}
+
+DiskWellFormed(p) ==
+  /\ \A k \in DIdx(p) :
+        LET e == p.disk[k] IN
+        /\ e.ext \in {"roto", "txt", "dir"}
+        /\ e.mod = FileMod(e)
+        (* the documentation reserves pkg.roto for the package directory; what a *)
+        (* mod.roto there or a pkg.roto elsewhere means is left open: not modelled *)
+        /\ (e.stem = PKG => (e.dir = <<>> /\ e.ext = "roto"))
+        /\ (e.stem = MODSTEM => (e.dir # <<>> /\ e.ext = "roto"))
+        (* no directory is called pkg or mod *)
+        /\ \A j \in 1..Len(e.dir) : e.dir[j] # PKG /\ e.dir[j] # MODSTEM
+  (* one entry per name, one file per module path (x.roto next to x/mod.roto is *)
+  (* an error of its own, name resolution: C13)                                *)
+  /\ \A j, k \in DIdx(p) : j < k =>
+        /\ <<p.disk[j].dir, p.disk[j].stem, p.disk[j].ext>> # <<p.disk[k].dir, p.disk[k].stem, p.disk[k].ext>>
+        /\ (p.disk[j].ext # "dir" /\ p.disk[k].ext # "dir") => p.disk[j].mod # p.disk[k].mod
+
+-----------------------------------------------------------------------------
+(* the package: the items of the files that are part of it *)
 Tests == pkg.tests
 Funcs == pkg.funcs
-TIdx  == 1..Len(Tests)
-FIdx  == 1..Len(Funcs)
+AllT  == 1..Len(Tests)
+AllF  == 1..Len(Funcs)
+LiveMods == LiveModsOf(pkg)
+(* (without a directory every module of pkg.mods is part of the package, WellFormed) *)
+TIdx  == IF IsDiskPkg(pkg) THEN LET L == LiveMods IN {i \in AllT : Tests[i].mod \in L} ELSE AllT
+FIdx  == IF IsDiskPkg(pkg) THEN LET L == LiveMods IN {j \in AllF : Funcs[j].mod \in L} ELSE AllF
 
 TestMark(i) == i
 FnMark(j)   == 100 + j
@@ -109,13 +201,14 @@ BodyCompiles(b) == b \in ValidBodies
 WellFormed(p) ==
   /\ Len(p.mods) >= 1 /\ p.mods[1] = Root
   /\ p.fnpos \in {"first", "last", "mixed"}
+  /\ IsDiskPkg(p) => DiskWellFormed(p)
+  /\ (IsDiskPkg(p) /\ p.broken # "none") => p.brokenAt \in FileMods(p)
   /\ \A i \in 1..Len(p.tests) : p.tests[i].body \in Bodies
-  /\ \A i \in 1..Len(p.tests) : \E k \in 1..Len(p.mods) : p.mods[k] = p.tests[i].mod
-  /\ \A j \in 1..Len(p.funcs) : \E k \in 1..Len(p.mods) : p.mods[k] = p.funcs[j].mod
+  /\ \A i \in 1..Len(p.tests) : p.tests[i].mod \in FileMods(p)
+  /\ \A j \in 1..Len(p.funcs) : p.funcs[j].mod \in FileMods(p)
   (* functions and child modules share one namespace (name resolution is C13's *)
   (* subject): such packages are outside this model                           *)
-  /\ \A j \in 1..Len(p.funcs) : \A k \in 1..Len(p.mods) :
-        p.mods[k] # Append(p.funcs[j].mod, p.funcs[j].name)
+  /\ \A j \in 1..Len(p.funcs) : Append(p.funcs[j].mod, p.funcs[j].name) \notin FileMods(p)
   /\ Len(p.tests) < 100
 
 (* A test name must be unique in its module; so must a function name.      *)
@@ -134,7 +227,12 @@ CallOK(i) ==
   \/ /\ Resolves(Tests[i].mod, Tests[i].call)
      /\ Funcs[Callee(Tests[i].mod, Tests[i].call)].sig # "param"   \* `n()` passes no argument
 
-Compiles == /\ pkg.broken = "none"
+(* the unrelated error counts iff the file that holds it is part of the package *)
+BrokenLive == /\ pkg.broken # "none"
+              /\ IsDiskPkg(pkg) => pkg.brokenAt \in LiveMods
+
+Compiles == /\ HasRoot(pkg)                 \* a package directory holds a pkg.roto
+            /\ ~BrokenLive
             /\ ~DupTest
             /\ ~DupFn
             /\ \A i \in TIdx : CallOK(i)
@@ -236,6 +334,21 @@ ExactlyOnce ==
 (* ... never more than once at any time, and nothing runs if the package is rejected *)
 AtMostOnce == /\ \A i \in TIdx : Count(log, TestMark(i)) <= 1
               /\ (phase = "rejected" => log = <<>>)
+(* ... and nothing that stands in a file outside the package ever runs *)
+OutsideSilent == IsDiskPkg(pkg) =>
+                    /\ \A i \in AllT \ TIdx : Count(log, TestMark(i)) = 0
+                    /\ \A j \in AllF \ FIdx : Count(log, FnMark(j)) = 0
+(* every module file of a package directory counts, wherever it lies: what is *)
+(* loaded is exactly what the documented rules say (restated without recursion *)
+(* over the entries: every directory on the way down holds a mod.roto)         *)
+EveryModuleCounts ==
+  (IsDiskPkg(pkg) /\ HasRoot(pkg)) =>
+     \A k \in DIdx(pkg) :
+        LET e == pkg.disk[k] IN
+        (e.ext # "dir") =>
+           ((e.mod \in LiveMods) <=>
+              /\ e.ext = "roto"
+              /\ \A n \in 1..Len(e.dir) : HasEntry(pkg, SubSeq(e.dir, 1, n), MODSTEM, "roto"))
 
 (* ... in the order of the full names, whatever the declaration order *)
 TestMarksOf(s) == SelectSeq(s, LAMBDA x : x < 100)
@@ -281,6 +394,6 @@ EntryOnce ==
   /\ cmd.kind # "run" => entryRuns = 0
   /\ (Ended /\ cmd.kind = "run") => entryRuns = (IF exit = "success" THEN 1 ELSE 0)
 
-Inv == TypeOK /\ ExactlyOnce /\ AtMostOnce /\ InOrder /\ VerdictIff /\ NoCallToTest
+Inv == TypeOK /\ ExactlyOnce /\ AtMostOnce /\ OutsideSilent /\ EveryModuleCounts /\ InOrder /\ VerdictIff /\ NoCallToTest
        /\ NotShadowed /\ BodyErrorRejected /\ RightEntry /\ ExitTable /\ EntryOnce
 =============================================================================
